@@ -327,7 +327,12 @@ class Reconcile:
 
                 if childf.root is not work_root:  # from different tree, need to verify first
                     try:
+                        child_body = getattr(child_parent.a, child_field)
+
                         for i in range(start, end):
+                            if child_body[child_off_idx + i] is not body[i]:  # the list in that tree may have been edited as well, then the indices say nothing
+                                raise ValueError('stale index')
+
                             body[i].f.verify(reparse=False)
 
                         slice = child_parent.get_slice(child_idx, child_off_idx + end, child_field,
@@ -470,6 +475,9 @@ class Reconcile:
         if not (nodef := getattr(node, 'f', None)) or nodef.root is not self.work:  # pure AST if no '.f' or FST from different tree
             if nodef:  # FST from different tree, need to verify it before using
                 try:
+                    if (nodef_parent := nodef.parent) and nodef.pfield.get(nodef_parent.a) is not node:  # the tree it comes from may have been edited there as well, then its position says nothing
+                        raise ValueError('stale position')
+
                     copy = nodef.verify(reparse=False).copy(trivia=self.trivia_fst_get)
 
                     copy.verify()  # the links say nothing about primitives changed in that tree, the copied source must still be what the node says
